@@ -1,6 +1,7 @@
 PROP = {
     "level": "exploration",
-    "stages": [("lib", "c01", False, ()), ("lib-race", "c01", True, ())],
+    "stages": [("lib", "c01", False, ()), ("lib-race", "c01", True, ()), ("e2e", "c01e2e", False, ())],
+    "binaries": ("./cmd/thru", "./cmd/thruserv"),
     "assumptions": [
         "success is read from the return values of SendManifestMultiStream/RecvManifestMultiStream; digests are taken after both returned and the connections were closed",
         "real loopback QUIC and the repository's mock transport; TURN/STUN paths not driven",
